@@ -1,3 +1,4 @@
+import Std.Data.HashSet
 /-
   ParCache — `parCache.Do` of sumdb/cache.go as a small-step machine.
 
@@ -126,15 +127,15 @@ def visOf (pc : PC) (i : Nat) : Option Vis :=
   | .ret => some (.ret i)
   | _ => none
 
-structure Snap where
-  pcs : List PC
-  ents : List (Bool × Bool × Bool)
-  runs : List Nat
-  deriving DecidableEq
+def encPC : PC → Nat
+  | .idle => 0 | .load => 1 | .loadOrStore => 2 | .loadDone1 => 3 | .lock => 4 | .loadDone2 => 5
+  | .runF => 6 | .storeDone => 7 | .unlock => 8 | .ret => 9 | .returned => 10
+
+abbrev Snap := List Nat
 
 def snap (callers keys : List Nat) (s : St Nat) : Snap :=
-  { pcs := callers.map s.pc, ents := keys.map (fun k => ((s.entry k).present, (s.entry k).done, (s.entry k).locked)),
-    runs := keys.map s.runs }
+  callers.map (fun i => encPC (s.pc i)) ++
+  keys.flatMap (fun k => [(s.entry k).present.toNat, (s.entry k).done.toNat, (s.entry k).locked.toNat, s.runs k])
 
 def invOK (callers keys : List Nat) (key : Nat → Nat) (s : St Nat) : Bool :=
   keys.all (fun k => s.runs k ≤ 1) &&
@@ -144,23 +145,28 @@ def insertNew (callers keys : List Nat) (acc : List (Snap × St Nat)) (s : St Na
   let sn := snap callers keys s
   if acc.any (fun p => p.1 == sn) then (acc, false) else (acc ++ [(sn, s)], true)
 
-/-- closure under internal (invisible) steps; `fuel` bounds the number of rounds -/
-def tauClosure (callers keys : List Nat) (key : Nat → Nat) (fval : Nat → Nat) :
-    Nat → List (Snap × St Nat) → List (Snap × St Nat) → List (Snap × St Nat)
-  | 0, acc, _ => acc
-  | fuel + 1, acc, frontier =>
-    if frontier.isEmpty then acc else
-    let (acc', next) := frontier.foldl (fun (st : List (Snap × St Nat) × List (Snap × St Nat)) p =>
-      callers.foldl (fun st i =>
-        match visOf (p.2.pc i) i with
-        | some _ => st
-        | none =>
-          match step key fval p.2 i with
-          | none => st
-          | some s' =>
-            let (a, isNew) := insertNew callers keys st.1 s'
-            if isNew then (a, st.2 ++ [(snap callers keys s', s')]) else (a, st.2)) st) (acc, [])
-    tauClosure callers keys key fval fuel acc' next
+/-- successors by one internal (invisible) step -/
+def tauSucc (callers : List Nat) (key : Nat → Nat) (fval : Nat → Nat) (s : St Nat) : List (St Nat) :=
+  callers.filterMap (fun i => match visOf (s.pc i) i with
+    | some _ => none
+    | none => step key fval s i)
+
+/-- closure under internal steps: worklist with a hash set of snapshots; `fuel` bounds the number of expansions -/
+def closureLoop (callers keys : List Nat) (key : Nat → Nat) (fval : Nat → Nat) :
+    Nat → Std.HashSet Snap → List (St Nat) → List (St Nat) → List (St Nat)
+  | 0, _, acc, _ => acc
+  | _, _, acc, [] => acc
+  | fuel + 1, seen, acc, s :: work =>
+    let (seen', fresh) := (tauSucc callers key fval s).foldl (fun (st : Std.HashSet Snap × List (St Nat)) s' =>
+      let sn := snap callers keys s'
+      if st.1.contains sn then st else (st.1.insert sn, s' :: st.2)) (seen, [])
+    closureLoop callers keys key fval fuel seen' (fresh ++ acc) (fresh ++ work)
+
+def tauClosure (callers keys : List Nat) (key : Nat → Nat) (fval : Nat → Nat) (pool : List (Snap × St Nat)) :
+    List (Snap × St Nat) :=
+  let seen : Std.HashSet Snap := pool.foldl (fun h p => h.insert p.1) {}
+  let sts := pool.map (·.2)
+  (closureLoop callers keys key fval 200000 seen sts sts).map (fun s => (snap callers keys s, s))
 
 def visStep (callers keys : List Nat) (key : Nat → Nat) (fval : Nat → Nat) (states : List (Snap × St Nat)) (v : Vis) :
     List (Snap × St Nat) :=
@@ -178,7 +184,7 @@ def acceptsFrom (callers keys : List Nat) (key : Nat → Nat) (fval : Nat → Na
     List (Snap × St Nat) → List Vis → Nat → Option Nat
   | _, [], _ => none
   | states, v :: rest, n =>
-    let cl := tauClosure callers keys key fval (16 * (callers.length + 1)) states states
+    let cl := tauClosure callers keys key fval states
     let next := visStep callers keys key fval cl v
     if next.isEmpty then some n
     else if !(next.all (fun p => invOK callers keys key p.2)) then some n
